@@ -310,7 +310,7 @@ func (m *Machine) termOf(v Value) *Term {
 		if x.Nil {
 			return m.strLit("")
 		}
-		return x.T
+		return m.current(x)
 	case ByteArr:
 		return x.T
 	case IfaceV:
